@@ -6,7 +6,8 @@ CONSTANTS
   MaxBatch = 8
   NReq = 3
   ForkEpochs = {0}
-INVARIANTS TypeOK DomainRight Memoryless SigCorrect NoSignatureWithoutDomain ErrorHasNoSignatures
+INVARIANTS TypeOK DomainRight Memoryless HandedOwn SigCorrect NoSignatureWithoutDomain ErrorHasNoSignatures
+PROPERTIES TraceReplyStable
 CONSTRAINT HWM
 POSTCONDITION TraceAccepted
 CHECK_DEADLOCK FALSE
